@@ -39,6 +39,9 @@ def goenv():
     env.pop("GOTOOLCHAIN", None)
     env.pop("GOSUMDB", None)
     env.setdefault("HOME", "/root")
+    if os.environ.get("VERIF_COVER"):
+        # statement coverage of the library by the correspondence harness (coverage_map.py)
+        env["GOCOVERDIR"] = os.environ["VERIF_COVER"]
     return env
 
 
@@ -83,10 +86,13 @@ def harness_modfile():
 
 
 def build_go(cmd, tags=True):
-    out_bin = os.path.join(BUILD, cmd + ("" if REPO == "/repo" else "-alt"))
+    out_bin = os.path.join(BUILD, cmd + ("" if REPO == "/repo" else "-alt-" + re.sub(r"\W", "_", REPO)))
     args = ["go", "build"] + harness_modfile()
     if tags:
         args += ["-tags", "verif"]
+        if os.environ.get("VERIF_COVER"):
+            out_bin += "-cov"
+            args += ["-cover", "-coverpkg=all"]
     args += ["-o", out_bin, "./cmd/" + cmd]
     rc, out = sh(args, cwd=HARNESS, env=goenv(), timeout=900)
     return rc, out, out_bin
